@@ -42,7 +42,7 @@ EXT_POOL = trees.EXTERNALS + ["projx.y", "proj_other.z", "projection", "handlers
 
 
 def plan(tier, seed):
-    return [{"kind": "trees", "n": 12 if tier == "quick" else 320} for _ in range(10 if tier == "quick" else 16)]
+    return [{"kind": "trees", "n": 40 if tier == "quick" else 320} for _ in range(10 if tier == "quick" else 16)]
 
 
 def run_shard(spec, acc):
